@@ -1,6 +1,7 @@
 #!/usr/bin/env python3
 """bunit -- BOUNDED stand-ins (never counted as proved): exhaustive native runs of a piece of the real code that no deductive verifier here can
-reach.  Only one kind exists: the regular expressions of /repo/src, whose literals are cut out of the current source text on every run and run by
+reach.  Two kinds exist: one function that is a pure string transformation (B02a: handle_special_chars, stand-in for U02a when its body is rewritten
+into a shape Verus cannot take), and the regular expressions of /repo/src, whose literals are cut out of the current source text on every run and run by
 the real `regex` crate (the engine MathCAT links) over EVERY concatenation of up to N tokens of a stated token alphabet; each match is checked
 against a shape invariant taken from the property statement.  A failure comes with the concrete input string."""
 import os, re, sys, json, time, shutil, subprocess, tempfile, importlib.util
@@ -42,13 +43,13 @@ def run_unit(name, tier='quick'):
         f = [x for x in fails if x[0] == c['name']]
         st = 'failed' if f else ('success' if c['name'] in done else 'no result')
         res['bounded'].append({'harness': c['name'], 'bound': c['bound'], 'status': st, 'strings_tried': int(done.get(c['name'], 0)), 'regex': c['regex'], 'invariant': c['invariant']})
-        res['functions'].append({'emitted': '%s[%s]' % (c['regex_name'], c['name']), 'file': 'src/' + c['file'], 'path': 'regex literal ' + c['regex_name'], 'line': c.get('line'), 'sha': c.get('sha'),
+        res['functions'].append({'emitted': '%s[%s]' % (c['regex_name'], c['name']), 'file': 'src/' + c['file'], 'path': c.get('what', 'regex literal') + ' ' + c['regex_name'], 'line': c.get('line'), 'sha': c.get('sha'),
                                  'success': st == 'success', 'bounded': c['bound'], 'contract': {'requires': 'every concatenation of up to the stated number of tokens of: ' + ' | '.join(c['tokens']), 'ensures': c['invariant']}})
         if f:
             res['status'] = 'violation'
-            res['failures'].append({'fn': c['name'], 'label': 'bounded_regex_shape', 'kind': 'bounded check failed', 'message': f[0][2],
-                                    'rendered': 'regex %s = %s on input %s: %s' % (c['regex_name'], c['regex'], f[0][1], f[0][2]),
-                                    'counterexample': {'named': {'input': f[0][1]}, 'meaning': 'input string (escaped) for the real regex literal run by the real regex crate'}})
+            res['failures'].append({'fn': c['name'], 'label': c.get('label', 'bounded_regex_shape'), 'kind': 'bounded check failed', 'message': f[0][2],
+                                    'rendered': '%s = %s on input %s: %s' % (c['regex_name'], c['regex'], f[0][1], f[0][2]),
+                                    'counterexample': {'named': {'input': f[0][1]}, 'meaning': 'input string (escaped) for the piece of the real source text named above, run natively'}})
         elif st != 'success' and res['status'] == 'pass':
             res['status'] = 'inconclusive'; res['note'] = 'no result for ' + c['name']
     # canary: a mutation of the literal that must be caught
